@@ -72,7 +72,7 @@ CHECKS = {
              "present empty or absent), one of the 6 exported builders, and 0..4 user modifiers drawn from all 24 exported With* functions (list cross-checked against a source scan of /repo/dhcpv4 at "
              "check time), including ones colliding with a default. Shape = (builder, input source, opcode class, presence of 82/61/54/55, sorted modifier names); non-trivial iff a modifier is used or "
              "option 82/61 carries a value.",
-        technique="field-level reference model of the builders' documented defaults and of every With* modifier, evaluated online against the real builders (model-based runtime monitor); modifier lists re-used across builders, inputs and earlier results re-read after later builds",
+        technique="field-level reference model of the builders' documented defaults and of every With* modifier, evaluated online against the real builders (model-based runtime monitor); modifier lists re-used across builders, inputs and earlier results re-read after later builds; options merged into built packets (second instances continue the value) between builds",
         level_text="(1) the build without user modifiers is checked against the fields the statement names (flipped opcode, xid, htype, chaddr, flags, giaddr, byte-exact echo/omission of options 82 and 61, "
                    "option 50/54/xid for request-from-offer, type/ciaddr/unicast/PRL for renew, release, inform, discover); (2) the build with user modifiers must equal the model's 'defaults, then the "
                    "user modifiers in order' on every field and option.",
@@ -217,7 +217,7 @@ CHECKS = {
              "every exported constructor with caller-owned argument slices (rendered as an extra observable). Operations: every reflectively reachable exported non-mutating method (ToBytes, String, Summary, accessors, "
              "with synthesised arguments) + builders/helpers. Orders: forward, reverse, each call twice in a row, 2 (quick) / 5 (thorough) seeded permutations, each on a FRESH identical copy; for operation sets <= 40 the "
              "reference is each operation evaluated first on its own pristine copy, and for sets <= 12 ALL sequences of <= 3 calls are followed by a full comparison. Shape = subject kind + size class.",
-        technique="order-differential purity monitor over fresh identical copies of each value (pristine per-operation references for small operation sets, exhaustive sequences of <= 3 calls), plus a reader-writes detector: two goroutines running the same read-only calls under the Go race detector; encoding and printed form taken before anything else is called on one extra copy and compared after all reads; operations that are the identity on the value (restore, encode, re-edit); builders and extractors among the operations on exchange-shaped messages",
+        technique="order-differential purity monitor over fresh identical copies of each value (pristine per-operation references for small operation sets, exhaustive sequences of <= 3 calls), plus a reader-writes detector: two goroutines running the same read-only calls under the Go race detector; encoding and printed form taken before anything else is called on one extra copy and compared after all reads; operations that are the identity on the value (restore, encode, re-edit); builders and extractors among the operations on exchange-shaped messages; hand-set values that no wire form carries exactly (elapsed times, lifetimes); by-code accessors called with codes 0 and 255",
         level_text="A read-only call that changes any later result (encoding, printed form, accessor result, or the caller's own slices) makes some operation's result depend on what ran before it, which the comparison "
                    "against pristine / differently-ordered evaluations exposes; repeated calls must return equal results. Race reports name writes by 'read-only' methods and are counted as suspects (the sequential oracle decides).",
         level_note="Only API-observable state is compared (exported fields, method results). For whole messages (hundreds of operations) the reference is one forward pass, so a change masked in every tried order would be missed; "
@@ -246,7 +246,7 @@ CHECKS = {
         stages=[dict(name="sched", shards={"quick": 8, "thorough": 16}, timeout={"quick": 900, "thorough": 3600})],
         rule="full grid, both clients (real nclient4/nclient6 over a scripted PacketConn inside testing/synctest bubbles): T in {1ms,10ms,250ms,5s} (+ {3ns,7ms,100ms,1s,64s} thorough) x n in {-1,0,1..6} x request size "
              "variants x 3 destinations x caller context with/without a far deadline x {silence | response accepted in try k < n at offset {start, middle, last ns} of that try}. Shape = the scenario tuple; non-trivial iff n != 1 or a response is accepted.",
-        technique="virtual-time execution (testing/synctest) of the real clients against a scripted PacketConn that records (virtual instant, destination, bytes) of every WriteTo; exact-instant oracle; sequences of calls on one client (also re-submitting one request object edited in place); read faults, failing transmissions, every negative try count observed for 13 transmissions, requests of every message kind, a matcher with a memory, responses of exactly 1500 octets",
+        technique="virtual-time execution (testing/synctest) of the real clients against a scripted PacketConn that records (virtual instant, destination, bytes) of every WriteTo; exact-instant oracle; sequences of calls on one client (also re-submitting one request object edited in place); read faults, failing transmissions, every negative try count observed for 13 transmissions, requests of every message kind, a matcher with a memory, responses of exactly 1500 octets; the DHCPv4 client also over the library's own raw broadcast connection (destination, port and payload read back from the frames written); call sequences that send the same message and get the byte-identical answer each time",
         level_text="With no acceptable response: exactly n transmissions at offsets T*(2^k-1), each byte-identical to request.ToBytes() taken before the call, to the requested destination, and the no-response error at exactly "
                    "T*(2^n-1); n = -1: the first 10 transmissions on schedule, then cancellation yields ctx.Err(); a response accepted in try k returns at that very instant and no transmission follows during the next 4*T*2^n.",
         level_note="Instants are exact because time is virtual (synctest); a blocked goroutine left in the bubble or a deadlock fails the scenario. Trusts testing/synctest of go1.26.8.",
@@ -263,7 +263,7 @@ CHECKS = {
              "budget; burst of bufferCap+3 rejected datagrams at ta; mixture of rejected/wrong-xid/undecodable/empty datagrams; rejected stream + acceptable response} x event {none; ctx cancel, ctx deadline, Close, Close twice at "
              "instant tc} with ta, tc on {1ns, T/3, T-1ns, T+1ns, 2.5T, budget-1ns, budget+T} (quick: a deterministic third of the traffic x event products). "
              "(stress, real time, -race) histories of 8 caller goroutines + a feeder + Close racing them, jitter at conn and cancel.gap hook points. Shape = scenario tuple with instants classed {try0, later, after} / order hash of the history.",
-        technique="virtual-time execution (testing/synctest) of the real clients with exact return-instant oracle and bubble-exit goroutine check; real-time -race stress histories with completion/leak checker; follow-up call per scenario, conn.Close errors, failing writes with bursts routed meanwhile, slow-matcher bursts; read faults while the client is open, a call made (or Close called) while another call's write is parked, write deadlines honoured by the scripted connection, responses checked for completeness",
+        technique="virtual-time execution (testing/synctest) of the real clients with exact return-instant oracle and bubble-exit goroutine check; real-time -race stress histories with completion/leak checker; follow-up call per scenario, conn.Close errors, failing writes with bursts routed meanwhile, slow-matcher bursts; read faults while the client is open, a call made (or Close called) while another call's write is parked, write deadlines honoured by the scripted connection, responses checked for completeness; Close against a matcher held at a gate with a backlog of up to 100 datagrams behind it; stress histories with two and three tries per call",
         level_text="Grid: the call returns exactly at min(arrival of an acceptable response, context end, Close, T*(2^n-1)) with the matching result (response / ctx.Err() / no-response error), never later; an immediate "
                    "second call with the same transaction id is not refused; Close and a second Close return nil; the synctest bubble only exits when every client goroutine has finished (a deadlock is reported). "
                    "Stress: every call returns, errors are from the allowed set, no (nil, nil), no client goroutine survives Close, zero race reports.",
@@ -282,7 +282,7 @@ CHECKS = {
              "after every step makes the execution deterministic and it is compared EXACTLY (result kind, returned datagram, return instant, transmission count) with a sequential model. 2/5 of the scripts open the "
              "cancel gap through the verif hook (virtual sleep between 'stop listening' and 'unregister') and are judged by invariants only. (stress, real time, -race) histories of 8 callers, few ids, a feeder "
              "pushing mixed datagram streams, blocking matchers, jitter at conn and hook points, one deliberately held transaction id. Shape = script skeleton / order hash of the observed history; non-trivial iff >= 2 calls overlap or an id collides.",
-        technique="virtual-time deterministic replay of the real clients against a sequential model (exact equality), hook-driven gap scenarios with invariant oracle, and offline history checker with unique nonces over -race stress histories; slow-matcher burst scenarios (buffer full, receive loop waiting); returned messages re-read after later traffic",
+        technique="virtual-time deterministic replay of the real clients against a sequential model (exact equality), hook-driven gap scenarios with invariant oracle, and offline history checker with unique nonces over -race stress histories; slow-matcher burst scenarios (buffer full, receive loop waiting); returned messages re-read after later traffic; stress histories with two and three tries per call (retransmitting callers side by side under the race detector)",
         level_text="Model: per call the result (own-transaction datagram that is first acceptable in arrival order / no-response / ctx error / id-in-use), its instant and the number of transmissions must equal the model's. "
                    "History checker: a returned datagram was injected, has the call's id, passes the v4 opcode/hardware-address filters, is accepted by the call's matcher (re-evaluated), its routing interval overlaps the "
                    "call, is returned by one call only, is the first acceptable one after the call's transmission (single-try calls); a call living entirely inside another call's pending window with the same id is refused; "
@@ -299,7 +299,7 @@ CHECKS = {
              "wrong-xid ACK, undecodable, silence}, each with a delay from {0,1,30,99,101,150,250} ms, ACK address possibly different from the offered one, broadcast flag on/off; DHCPv6: to SOLICIT -> {ADVERTISE, wrong-xid "
              "ADVERTISE, REPLY, wrong-xid REPLY, undecodable, ADVERTISE without server id, relay-typed, silence}, to REQUEST -> {REPLY, wrong-xid REPLY, ADVERTISE with the REQUEST's xid, undecodable, silence}, Solicit+Request and "
              "RapidSolicit. ALL tables with <= 2 servers and one reaction per phase are enumerated; the rest is seeded. Shape = outcome class + reaction table; non-trivial iff at least one server reacts.",
-        technique="virtual-time execution of the real clients against scripted servers; every client transmission is decoded by the independent reference decoders and the result (Lease / ErrNak / message / error) is classified against the exchange rules using unique nonces; every datagram must be taken off the wire while the client is open; lease contents compared with an independent decoding of the datagrams; no-response failures must take the whole schedule",
+        technique="virtual-time execution of the real clients against scripted servers; every client transmission is decoded by the independent reference decoders and the result (Lease / ErrNak / message / error) is classified against the exchange rules using unique nonces; every datagram must be taken off the wire while the client is open; lease contents compared with an independent decoding of the datagrams; no-response failures must take the whole schedule; caller options in DISCOVER/REQUEST (client identifiers, maximum size, request list, user class, FQDN) that no scripted server echoes; DHCPv6 responses read during the first try judged in retransmitted exchanges too",
         level_text="DHCPv4: every transmission carries the client's hardware address; the REQUEST carries the selected offer's yiaddr as option 50, its server id as option 54 and its xid; the exchange is completed only by the first "
                    "ACK/NAK of that transaction bearing that server id delivered while the call waited (ACK => Lease{that Offer, that ACK}; NAK => ErrNak with that NAK; anything else ignored); renewal REQUEST: ciaddr = leased "
                    "address, broadcast flag clear, no option 50/54, same completion rule; exactly one RELEASE for the leased address sent to the lease's server id, port 67. DHCPv6: ADVERTISE/REPLY paired by xid, REQUEST carries "
